@@ -44,6 +44,9 @@ pub enum Damage {
     CopySubtree(u16, u16),
     /// every SEQUENCE-NUMBER text replaced by a small number (repeats, holes)
     Renumber(u8),
+    /// the value of one ID-REF / ID attribute edited by hand: a blank appended or put in front, another letter case, the
+    /// last character dropped, a character appended (references that almost match a defined id)
+    EditRef(u16, u8),
 }
 #[derive(Debug, Clone, Hash, PartialEq, Eq, Serialize, Deserialize)]
 pub struct Case {
@@ -341,6 +344,34 @@ fn apply(doc: &[u8], d: &Damage) -> (Vec<u8>, Vec<usize>) {
             }
             (out, vec![a, dst])
         }
+        Damage::EditRef(which, how) => {
+            let needle: &[u8] = if how & 8 != 0 { b" ID=\"" } else { b"ID-REF=\"" };
+            let mut at = vec![];
+            let mut i = 0;
+            while let Some(p) = find(&doc[i..], needle) {
+                at.push(i + p + needle.len());
+                i += p + needle.len();
+            }
+            if at.is_empty() {
+                return (doc.to_vec(), vec![]);
+            }
+            let start = at[(*which as usize * at.len()) >> 16];
+            let end = doc[start..].iter().position(|&c| c == b'"').map(|e| start + e).unwrap_or(doc.len());
+            let mut val = doc[start..end].to_vec();
+            match how % 5 {
+                0 => val.push(b' '),
+                1 => val.insert(0, b' '),
+                2 => val.make_ascii_lowercase(),
+                3 => {
+                    val.pop();
+                }
+                _ => val.push(b'x'),
+            }
+            let mut out = doc[..start].to_vec();
+            out.extend_from_slice(&val);
+            out.extend_from_slice(&doc[end..]);
+            (out, vec![start])
+        }
         Damage::Renumber(seed) => {
             let mut out = vec![];
             let mut i = 0;
@@ -551,6 +582,7 @@ pub fn check(c: &Case) -> CheckResult {
             Damage::DupSlice(..) => "slice-duplicated",
             Damage::MoveSubtree(..) | Damage::CopySubtree(..) => "subtree-moved",
             Damage::Renumber(_) => "renumbered",
+            Damage::EditRef(..) => "reference-edited",
             _ => "other",
         };
         let cls = judge(load(&paths), &format!("{}-inside-{}", kind, place), &|| {
@@ -611,6 +643,7 @@ fn damage() -> BoxedStrategy<Damage> {
         4 => any::<(u16, u16)>().prop_map(|(a, b)| Damage::MoveSubtree(a, b)),
         3 => any::<(u16, u16)>().prop_map(|(a, b)| Damage::CopySubtree(a, b)),
         4 => any::<u8>().prop_map(Damage::Renumber),
+        4 => any::<(u16, u8)>().prop_map(|(a, b)| Damage::EditRef(a, b)),
         1 => (0u8..16).prop_map(Damage::Paths),
     ]
     .boxed()
@@ -626,6 +659,7 @@ fn element_damage() -> BoxedStrategy<Damage> {
         3 => any::<(u16, u16)>().prop_map(|(a, b)| Damage::MoveSubtree(a, b)),
         2 => any::<(u16, u16)>().prop_map(|(a, b)| Damage::CopySubtree(a, b)),
         2 => any::<u8>().prop_map(Damage::Renumber),
+        3 => any::<(u16, u8)>().prop_map(|(a, b)| Damage::EditRef(a, b)),
     ]
     .boxed()
 }
